@@ -309,6 +309,7 @@ func predSplit(c splitCase, o *evid.Obs) error {
 		o.Tag("has-pre-stages")
 	}
 	classifyRegexAndTemplates(e, split, upRows, &fl, o)
+	noParser := classifyGetterFacing(c, e, split, upRows, o)
 	o.Tag("batching:"+chunkClass(c.Chunks), "batching:"+chunkClass(c.Chunks2))
 	twins := concatTwins(afterBreaker) || concatTwins(finalRows)
 	if twins {
@@ -383,7 +384,7 @@ func predSplit(c splitCase, o *evid.Obs) error {
 	}
 
 	// ---- the real chain, twice ---------------------------------------------------------------
-	r1 := runChain(query, p, mkUp(c.Chunks))
+	r1 := runChainMode(query, p, mkUp(c.Chunks), c.ViaSQL)
 	if r1.noSplit {
 		// rate/count_over_time over >= 15 s with only line_format / label stages: qryn sends
 		// the whole query to the metrics_15s shortcut (AnalyzeMetrics15sShortcut): no
@@ -454,11 +455,11 @@ func predSplit(c splitCase, o *evid.Obs) error {
 		p1, _ := matrixPoints(v1)
 		p2, _ := matrixPoints(v2)
 		if d := diffPoints(p1, p2); d != "" {
-			return fmt.Errorf("%s\n result depends on the upstream batching %v vs %v (first taken as reference):%s", describe(), c.Chunks, c.Chunks2, d)
+			return fmt.Errorf("%s\n result depends on the upstream batching: %s vs planted upstream with batches %v (first taken as reference):%s", describe(), firstRunName(c), c.Chunks2, d)
 		}
 	} else if c.Limit == 0 || int(c.Limit) >= len(finalRows) {
 		if d := diffKeys(logKeys(v1), logKeys(v2)); d != "" {
-			return fmt.Errorf("%s\n result depends on the upstream batching %v vs %v (first taken as reference):%s", describe(), c.Chunks, c.Chunks2, d)
+			return fmt.Errorf("%s\n result depends on the upstream batching: %s vs planted upstream with batches %v (first taken as reference):%s", describe(), firstRunName(c), c.Chunks2, d)
 		}
 	}
 
@@ -545,6 +546,22 @@ func predSplit(c splitCase, o *evid.Obs) error {
 			continue
 		}
 		got := logKeys(v)
+		if noParser && errRows == 0 {
+			// no stage looks into the line: the labels of an entry are a function of its
+			// stream's labels alone, so the result cannot have more label sets than the
+			// reference - unless an edit was applied to a map shared between rows
+			wantSets := distinctSets(finalRows)
+			gotSets := map[string]bool{}
+			for _, cs := range v {
+				for _, en := range cs.entries {
+					gotSets[refeval.LabelsKey(en.labels)] = true
+				}
+			}
+			if len(gotSets) > wantSets {
+				return fmt.Errorf("%s\n run %d: %d different label sets come out, the definition yields %d: an entry's labels depend on how many earlier rows its stream had (label edits applied to a map shared between rows?)%s",
+					describe(), i+1, len(gotSets), wantSets, diffKeys(rowKeys(finalRows), got))
+			}
+		}
 		if errRows != 0 {
 			// failing entries: kept or dropped, with whatever line / labels; every OTHER entry
 			// must come out exactly as if the failing ones were not there
@@ -663,6 +680,64 @@ func classifyRegexAndTemplates(e *refeval.Expr, split int, upRows []refeval.Row,
 			o.Tag("template:label_format-fails-for-some-entries")
 		}
 	}
+}
+
+// classifyGetterFacing tags what concerns the getter: the via-SQL variant, its row counts and
+// pipelines whose first label-editing stage has no parser in front of it. Returns whether no
+// stage of the in-process part looks into the line for labels (no parser at all).
+func classifyGetterFacing(c splitCase, e *refeval.Expr, split int, upRows []refeval.Row, o *evid.Obs) bool {
+	if c.ViaSQL {
+		o.Tag("getter:via-sql-real-Scan")
+		if len(upRows) > 100 {
+			o.Tag("getter:via-sql:more-than-100-rows")
+		}
+		per := map[int]int{}
+		for _, r := range upRows {
+			per[r.SrcSeries]++
+		}
+		for _, n := range per {
+			if n >= 2 {
+				o.Tag("getter:via-sql:stream-with-several-rows")
+				break
+			}
+		}
+	} else {
+		o.Tag("getter:planted-upstream")
+	}
+	noParser := true
+	firstEdit := ""
+	for _, st := range e.Stages[split:] {
+		switch st.Kind {
+		case refeval.KJSON, refeval.KLogfmt, refeval.KRegexp:
+			noParser = false
+		case refeval.KLabelFormat, refeval.KDrop:
+			if firstEdit == "" && noParser {
+				firstEdit = st.Kind
+				for _, prm := range st.Params {
+					if prm.HasVal && strings.Contains(prm.Val, "{{."+prm.Name+"}}") {
+						firstEdit = "label_format-self-referential"
+					}
+				}
+			}
+		}
+	}
+	if firstEdit == "" && noParser && (e.AggGroup != nil || e.RangeGroup != nil) {
+		firstEdit = "by/without"
+	}
+	if firstEdit != "" {
+		o.Tag("getter:first-label-edit-without-parser:" + firstEdit)
+		if c.ViaSQL {
+			o.Tag("getter:via-sql:first-label-edit-without-parser")
+		}
+	}
+	return noParser
+}
+
+func firstRunName(c splitCase) string {
+	if c.ViaSQL {
+		return "database/sql rows through the real ClickhouseGetterPlanner.Scan"
+	}
+	return fmt.Sprintf("planted upstream with batches %v", c.Chunks)
 }
 
 // checkLimit: got must be `limit` of the surviving rows: everything strictly before the cut
